@@ -444,6 +444,12 @@ class WeakRefSpec(CallSpec):
                       "once when o dies (CPython semantics, assumed)")
 
   def apply(self, I, f, args, kws, st, ctx, k, node):
+    # precondition of the callee: the proxy hands the collector a callback (its own _forgetMe) - without it the weak
+    # subscription would never be dropped when the owner dies
+    from pyvc.values import BoundMethod
+    cb = args[1] if len(args) > 1 else kws.get("callback")
+    ok = isinstance(cb, BoundMethod) and getattr(cb.func, "__name__", "") == "_forgetMe"
+    I.check_obligation(st, bool(ok), "call.pre:weak_reference_is_created_with_the_proxys_clean_up_callback", kind="post")
     return I.call_value(WR, [args[0]], {}, st, ctx, k, node)
 
 
@@ -478,3 +484,30 @@ def weak_subscription_is_dropped_when_its_owner_is_reported_dead(b):
     "the_weak_subscription_is_gone_the_other_stays": lambda res: res[1] == [h1],
     "the_dead_owners_handler_is_never_invoked_again": lambda res: res[2] == [1] and res[3] is None,
   })
+
+
+class Owner2(object):
+  def m(self, event):
+    return None
+
+
+@unit(P, target=RV + "EventMixin.removeListener (bound-method handlers)")
+def unsubscribe_by_bound_method(b):
+  """a bound method is a NEW object on every attribute access (equal, not identical): unsubscribing `o.m` must remove
+  the subscription made with an earlier `o.m`"""
+  src = b.new(Src)
+  p0 = b.int("prio0", -5, 5)
+  with_type = b.bool("event_type_given")
+  def run(s):
+    o = Owner2()
+    s.addListener(Ev, h1, priority=p0)
+    s.addListener(Ev, o.m)
+    if with_type:
+      r = s.removeListener(o.m, Ev)
+    else:
+      r = s.removeListener(o.m)
+    return (r, [e[1] for e in s._eventMixin_handlers[Ev]])
+  return Case(run, [src], raises={}, ensures={
+    "reports_a_change_and_only_the_other_handler_stays": lambda res: res[0] is True and len(res[1]) == 1 and res[1][0] is h1,
+  })
+unsubscribe_by_bound_method.bound = BOUND
